@@ -23,4 +23,6 @@ def run(ctx):
     if hbin:
         res = ctx.correspondence("pool", hbin, ["pool"], drv, ["pool"])
         ctx.judge(res, theorem_hint="Poly.Props.C37.* (model Poly.Model.Pool no longer matches txnpool/common.TXPool)")
+        res = ctx.correspondence("poolsrv", hbin, ["poolsrv"], drv, ["poolsrv"], mem_gb=14)
+        ctx.judge(res, theorem_hint="Poly.Props.C37 server-level theorems (count model Srv no longer matches txnpool/proc at quiescent points)")
     ctx.judge_lean()
